@@ -217,6 +217,7 @@ namespace plan
     std::vector<std::string> rparams; // for a sub-predicate: the inherited parameters first, its own from 'own_from' on
     std::vector<std::string> fixed_params; // parameters every goal, fact and sub-goal must give a constant for (they are factors of a product in the rule)
     int super = -1;                   // index of the predicate it extends (global predicates only), or -1
+    int second_base_kind = 0;         // a sub-predicate of a plain predicate that is temporal through a SECOND base: `predicate P2() : P1, Interval`
     size_t own_from = 0;
     std::vector<std::shared_ptr<BodyItem>> body;
   };
